@@ -71,6 +71,10 @@ ABSTRACT = (
 )
 
 
+def _plain_loss(y_true, y_pred, **kwargs):
+    return float(np.mean(np.abs(np.asarray(y_true, dtype=float) - np.asarray(y_pred, dtype=float))))
+
+
 def required_args(name, cls):
     """Harness table of required constructor arguments (mirrors the repo's test params)."""
     from sklearn.linear_model import LinearRegression
@@ -105,6 +109,7 @@ def required_args(name, cls):
         "transformer": LogTransformer(),
         "length": 10,
         "param_names": ["initial_level"],
+        "func": _plain_loss,  # metric classes built from a user's function (make_forecasting_scorer)
     }
     if "strategies" in name:
         table["estimator"] = TimeSeriesForestRegressor(n_estimators=2) if short == "TSRStrategy" else TimeSeriesForestClassifier(n_estimators=2)
@@ -344,6 +349,7 @@ def _cls_table():
     from sktime.forecasting.model_selection import ForecastingGridSearchCV, SingleWindowSplitter
     from sktime.forecasting.naive import NaiveForecaster
     from sktime.forecasting.trend import PolynomialTrendForecaster
+    from sktime.performance_metrics.forecasting._classes import _MetricFunctionWrapper
     from sktime.transformations.series.adapt import TabularToSeriesAdaptor
     from sktime.transformations.series.boxcox import LogTransformer
     from sktime.transformations.series.compose import OptionalPassthrough
@@ -359,7 +365,7 @@ def _cls_table():
         "reduce": (RecursiveTabularRegressionForecaster, None), "detrender": (Detrender, None),
         "passthrough": (OptionalPassthrough, None), "adaptor": (TabularToSeriesAdaptor, None),
         "gscv": (ForecastingGridSearchCV, None), "colens": (ColumnEnsembleClassifier, "estimators"),
-        "cv": (SingleWindowSplitter, None),
+        "cv": (SingleWindowSplitter, None), "scorer": (_MetricFunctionWrapper, None),
     }
 
 
@@ -385,6 +391,8 @@ def build_node(n):
             kw[k] = build_node(v)
         elif k == "param_grid":
             kw[k] = dict(v)
+        elif v == "fn:plain_loss":
+            kw[k] = _plain_loss
         else:
             kw[k] = v
     if n["cls"] == "cv":
@@ -446,6 +454,8 @@ def matches(actual, exp, attr_of=None):
         return isinstance(actual, dict) and actual == exp
     if exp is inspect._empty:
         return False
+    if isinstance(exp, str) and exp == "fn:plain_loss":
+        return actual is _plain_loss
     try:
         return actual is exp or bool(actual == exp)
     except Exception:  # noqa: BLE001
@@ -458,7 +468,7 @@ def leaf_paths(n, prefix=""):
     _, attr = T[n["cls"]]
     out = []
     for k, v in full_params(n).items():
-        if k == attr or k in ("param_grid", "cv", "random_state", "n_jobs"):
+        if k == attr or k in ("param_grid", "cv", "random_state", "n_jobs", "func"):
             continue
         if is_node(v):
             if v["cls"] != "cv":
@@ -661,7 +671,10 @@ def _roots():
                                 node("reduce", estimator=node("ridge", alpha=0.5), window_length=2)])
 
     def gs(inner):
-        return st.builds(lambda f: node("gscv", forecaster=f, cv=node("cv"), param_grid={"window_length": [2, 3]}), inner)
+        # the scoring argument: none, or a scorer made from the user's own function (make_forecasting_scorer)
+        return st.builds(lambda f, sc: node("gscv", forecaster=f, cv=node("cv"), param_grid={"window_length": [2, 3]},
+                                            **({"scoring": node("scorer", func="fn:plain_loss", name="plain", greater_is_better=sc == 2)} if sc else {})),
+                         inner, st.integers(0, 2))
 
     lvl0 = st.one_of(leaf, red())
     lvl1 = st.one_of(ens(lvl0), mux(lvl0), stack(lvl0), pipe(lvl0), gs(leaf))
